@@ -49,6 +49,11 @@ theorem omitEmpty_total (pats : List (List String)) (m : List (String × GoVal))
   simp only [omitEmpty]
   intro h; cases h
 
+/-- `OmitEmpty` runs after each file's schema validation and before the next one's: since C04's repair ("OmitEmpty
+keeps an empty sequence empty") its result contains no nil slice, on any tree -/
+theorem omitEmpty_leaves_no_nil (pats : List (List String)) (v : GoVal) (p : TPath) : noNil (omitEmpty pats v p) = true :=
+  omitEmpty_noNil pats v p
+
 /-- what reaches gojsonschema after `convertToStringKeysRecursive` and `fixEmptyNotNull`: string-keyed mappings
 only and no nil slice anywhere (the two shapes gojsonschema cannot handle), for every input tree -/
 theorem walkers_establish_schema_input (raw v : GoVal) (h : convert raw = .ok v) :
@@ -87,7 +92,7 @@ of every `extends` value — once the fuel exceeds the number of `(file, service
 theorem extends_terminates (fs : Ext.FS) (main : String) (svcs : Ext.Services) (name : String) (fuel : Nat)
     (hf : (Ext.refUniverse fs main svcs).length < fuel) :
     (Ext.resolve fs main fuel svcs name []).1 ≠ .outOfFuel :=
-  (Ext.resolve_ne_fuel fs main svcs fuel svcs name [] (Ext.inv_self fs main svcs) List.nodup_nil
+  (Ext.resolve_ne_fuel fs main svcs fuel main svcs name [] (List.mem_cons_self ..) (Ext.inv_self fs main svcs) List.nodup_nil
     (by intro r hr; cases hr) (by simpa using hf)).1
 
 /-- … and so does `ApplyExtends`, in whatever order Go ranges over the services map -/
@@ -101,7 +106,7 @@ into a cycle) is reported as "Circular reference", from any starting tracker -/
 theorem extends_cycle_err (fs : Ext.FS) (main : String) (svcs : Ext.Services) (name : String) (fuel : Nat)
     (hcyc : Ext.Forever fs main (svcs, name)) (hf : (Ext.refUniverse fs main svcs).length < fuel) :
     (Ext.resolve fs main fuel svcs name []).1 = .err "circular" := by
-  rcases Ext.resolve_forever fs main fuel svcs name [] hcyc with h | h
+  rcases Ext.resolve_forever fs fuel main svcs name [] hcyc with h | h
   · exact absurd h (extends_terminates fs main svcs name fuel hf)
   · exact h
 
@@ -116,17 +121,58 @@ example : (Ext.resolve [("o.yml", .services [("b", .ext (.map (.str "a") (.str "
                         ("m.yml", .services [("a", .ext (.map (.str "b") (.str "o.yml")))])]
             "main" 9 [("a", .ext (.map (.str "b") (.str "o.yml")))] "a" []).1 = .err "circular" := by decide
 
-/-- `ok_xor_err` for the extends stage: with enough fuel the outcome is success or an error class, unless the
-unchecked assertion of `absExtendsPath` is reached (that case is `Neg.extends_never_panics_false`) -/
-theorem extends_ok_xor_err_partial (fs : Ext.FS) (main : String) (svcs : Ext.Services) (name : String) (fuel : Nat)
-    (hf : (Ext.refUniverse fs main svcs).length < fuel)
-    (hnp : ∀ s, (Ext.resolve fs main fuel svcs name []).1 ≠ .panic s) :
+/-- the part of `applyServiceExtends` before `tracker.Add` has no panic branch (since `absExtendsPath` reports a
+non-string `extends.file` as an error) -/
+theorem locate_never_panics (fs : Ext.FS) (main : String) (svcs : Ext.Services) (e : Ext.ExtVal) (s : String) :
+    Ext.locate fs main svcs e ≠ .error (.panic s) := by
+  unfold Ext.locate
+  repeat' split
+  all_goals (intro h; cases h)
+
+/-- `extends_never_panics` (full strength since the repair of `panic@paths.(*relativePathsResolver).absExtendsPath`;
+it was `Neg.extends_never_panics_false`): the extends recursion has no panic outcome, for any file system, fuel,
+services and tracker -/
+theorem extends_never_panics (fs : Ext.FS) :
+    ∀ (fuel : Nat) (main : String) (svcs : Ext.Services) (name : String) (tr : Tracker) (s : String),
+      (Ext.resolve fs main fuel svcs name tr).1 ≠ .panic s
+  | 0, _, _, _, _, _ => by unfold Ext.resolve; intro h; cases h
+  | fuel + 1, main, svcs, name, tr, s => by
+    unfold Ext.resolve
+    split
+    · intro h; cases h
+    · intro h; cases h
+    · intro h; cases h
+    · intro h; cases h
+    · rename_i e _
+      split
+      · rename_i r hl
+        intro h
+        have : r = .panic s := h
+        subst this
+        exact locate_never_panics fs main svcs e s hl
+      · rename_i ref file target hl
+        split
+        · intro h; cases h
+        · rename_i tr' _
+          have ih := extends_never_panics fs fuel file (target.getD svcs) ref tr' s
+          generalize Ext.resolve fs file fuel (target.getD svcs) ref tr' = res at ih
+          obtain ⟨r1, b, s'⟩ := res
+          simp only at ih
+          cases r1 with
+          | ok => cases b <;> (intro h; cases h)
+          | err c => intro h; cases h
+          | panic t => intro h; simp only at h; cases h; exact ih rfl
+          | outOfFuel => intro h; cases h
+
+/-- `ok_xor_err` for the extends stage (full strength): with enough fuel the outcome is success or an error class -/
+theorem extends_ok_xor_err (fs : Ext.FS) (main : String) (svcs : Ext.Services) (name : String) (fuel : Nat)
+    (hf : (Ext.refUniverse fs main svcs).length < fuel) :
     (Ext.resolve fs main fuel svcs name []).1 = .ok ∨ ∃ c, (Ext.resolve fs main fuel svcs name []).1 = .err c := by
   have h := extends_terminates fs main svcs name fuel hf
   cases hr : (Ext.resolve fs main fuel svcs name []).1 with
   | ok => exact Or.inl rfl
   | err c => exact Or.inr ⟨c, rfl⟩
-  | panic s => exact absurd hr (hnp s)
+  | panic s => exact absurd hr (extends_never_panics fs fuel main svcs name [] s)
   | outOfFuel => exact absurd hr h
 
 /-! ## include -/
@@ -183,47 +229,60 @@ theorem extends_missing_file_err (fs : Ext.FS) (main : String) (svcs : Ext.Servi
 example : Ext.lookup "a" [("a", Ext.Svc.ext (.map (.str "b") (.str "gone.yml")))] = some (.ext (.map (.str "b") (.str "gone.yml"))) ∧
     Ext.lookup "gone.yml" ([] : Ext.FS) = none := by decide
 
-/-! ## YAML alias expansion (`ResetProcessor.resolveReset`) -/
+/-! ## YAML alias expansion (`ResetProcessor.resolveReset` + `checkAcyclic`, loader/reset.go) -/
 
-/-- `alias_resolution_total_partial`: on every node arena whose child and alias edges are well-founded (some
-rank decreases along them: no alias reaches a node that encloses it), alias expansion returns — with any tags,
-any paths, any sharing — as soon as the fuel exceeds the rank of the root.  Without the hypothesis the
-statement is false: `Neg.alias_resolution_total_false` (`&x {<<: *x}`). -/
-theorem alias_resolution_total_partial (rk : Nat → Nat) (arena : List Reset.Node) (root : Nat)
-    (hr : Reset.Ranked rk arena) (fuel : Nat) (hf : rk root < fuel) :
+/-- `alias_resolution_total` (full strength since the repairs of `hang@alias-self-merge` and
+`hang@alias-override-cycle`): on EVERY node arena — any aliases, including aliases to enclosing anchors through
+merge keys, any tags, any sharing — alias expansion followed by the tree check returns as soon as the fuel exceeds
+twice the number of nodes: no node is ever nested more than twice on the recursion stack. -/
+theorem alias_resolution_total (arena : List Reset.Node) (root fuel : Nat) (hf : 2 * arena.length < fuel) :
     Reset.run arena root fuel ≠ .error .outOfFuel := by
   unfold Reset.run
-  have h := Reset.resolve_post rk fuel { arena := arena, visited := [], paths := [] } root [] hr hf
+  have h := Reset.resolve_total arena.length fuel { arena := arena, visited := [], paths := [] } [] root [] rfl
+    ⟨by intro x; simp, by intro x hx; cases hx⟩ (by simpa using hf)
   revert h
-  cases Reset.resolve fuel { arena := arena, visited := [], paths := [] } root [] with
+  cases Reset.resolve fuel { arena := arena, visited := [], paths := [] } [] root [] with
   | error e =>
     intro h
-    simp only [Reset.Post] at h
+    simp only [Reset.PostN] at h
     intro he
     cases he
     exact h rfl
-  | ok pr => intro _ he; cases he
+  | ok pr =>
+    obtain ⟨st, r⟩ := pr
+    intro h
+    simp only [Reset.PostN] at h
+    cases r with
+    | none => intro he; cases he
+    | some k =>
+      simp only
+      have hc := Reset.checkAcyclic_total st.arena fuel k (by omega)
+      cases hca : Reset.checkAcyclic st.arena fuel k with
+      | ok => intro he; cases he
+      | cycle p => intro he; cases he
+      | outOfFuel => exact absurd hca hc
 
-/-- non-vacuity: `{a: &x {k: !reset v}, b: *x}` is ranked, and expands (recording the reset once per visit path) -/
-example : Reset.Ranked (fun n => match n with | 0 => 3 | 1 => 1 | 3 => 2 | _ => 0)
-    [.map "" [("a", 1), ("b", 3)], .map "" [("k", 2)], .scalar "!reset", .alias 1] := by
-  intro n node h
-  match n with
-  | 0 => simp at h; subst h; simp [Reset.NodeOk]
-  | 1 => simp at h; subst h; simp [Reset.NodeOk]
-  | 2 => simp at h; subst h; simp [Reset.NodeOk]
-  | 3 => simp at h; subst h; simp [Reset.NodeOk]
-  | k + 4 => simp at h
-example : Reset.run [.map "" [("a", 1), ("b", 3)], .map "" [("k", 2)], .scalar "!reset", .alias 1] 0 4 = .ok [["a", "k"]] := by
+/-- `decode_input_acyclic`: when `UnmarshalYAML` reaches `Decode`, the node handed to yaml.v3 reaches no cycle
+through content or alias pointers — the decoder's recursion over it is finite -/
+theorem decode_input_acyclic (arena : List Reset.Node) (fuel k : Nat)
+    (h : Reset.checkAcyclic arena fuel k = .ok) : ¬ Dep.CanLoop (Reset.graphOf arena) k := by
+  intro hc
+  exact Dep.searchCycle_ne_ok (Reset.graphOf arena) fuel [k] k hc h
+
+/-- the three inputs of the repaired defects, evaluated: `&x {<<: *x}`, a plain self reference, and the cycle through
+an `!override` node (which `resolve` alone lets through: `Neg.resolve_output_tree_false`) -/
+example : Reset.run [.map "" [("<<", 1)], .alias 0] 0 5 = .error .cycle := by rfl
+example : Reset.run [.map "" [("a", 1)], .map "" [("k", 2)], .alias 1] 0 7 = .error .cycle := by rfl
+example : Reset.run [.seq "" [1, 5, 6], .map "!override" [("b", 2), ("x-a", 4)], .map "" [("services", 3)],
+    .alias 1, .alias 1, .alias 2, .alias 2] 0 15 = .error .cycle := by rfl
+/-- sharing without cycles is expanded, the `!reset` recorded once per visit path: `{a: &x {k: !reset v}, b: *x}` -/
+example : Reset.run [.map "" [("a", 1), ("b", 3)], .map "" [("k", 2)], .scalar "!reset", .alias 1] 0 9 = .ok [["a", "k"]] := by
   rfl
-
-/-- a plain self reference is reported as a cycle (evaluated): `{a: &x {k: *x}}` -/
-example : Reset.run [.map "" [("a", 1)], .map "" [("k", 2)], .alias 1] 0 6 = .error .cycle := by rfl
 
 /-! ## depends_on -/
 
 /-- `checkCycle_terminates`: the cycle search returns on every closed graph (edges point at vertices) -/
-theorem checkCycle_terminates (g : Dep.G) (hg : Dep.Closed g) (fuel : Nat) (hf : g.length < fuel) :
+theorem checkCycle_terminates {α : Type} [DecidableEq α] (g : Dep.G α) (hg : Dep.Closed g) (fuel : Nat) (hf : g.length < fuel) :
     Dep.checkCycle g fuel ≠ .outOfFuel := by
   unfold Dep.checkCycle
   apply Dep.checkFrom_ne_fuel
@@ -233,7 +292,7 @@ theorem checkCycle_terminates (g : Dep.G) (hg : Dep.Closed g) (fuel : Nat) (hf :
   · simp only [Dep.verts, List.length_map, List.length_singleton]; omega
 
 /-- `dependsOn_cycle_err`: if some service can reach a dependency cycle, `checkCycle` reports a cycle -/
-theorem dependsOn_cycle_err (g : Dep.G) (hg : Dep.Closed g) (v : String) (hv : v ∈ Dep.verts g)
+theorem dependsOn_cycle_err {α : Type} [DecidableEq α] (g : Dep.G α) (hg : Dep.Closed g) (v : α) (hv : v ∈ Dep.verts g)
     (hc : Dep.CanLoop g v) (fuel : Nat) (hf : g.length < fuel) :
     ∃ p, Dep.checkCycle g fuel = .cycle p := by
   have h1 := checkCycle_terminates g hg fuel hf
@@ -244,8 +303,8 @@ theorem dependsOn_cycle_err (g : Dep.G) (hg : Dep.Closed g) (v : String) (hv : v
   | cycle p => exact ⟨p, rfl⟩
   | outOfFuel => exact absurd hr h1
 
-example : Dep.checkCycle [("a", ["b"]), ("b", ["c"]), ("c", ["b"])] 4 = .cycle ["b", "c", "b"] := by decide
-example : Dep.checkCycle [("a", ["b", "c"]), ("b", ["c"]), ("c", [])] 4 = .ok := by decide
+example : Dep.checkCycle ([("a", ["b"]), ("b", ["c"]), ("c", ["b"])] : Dep.G String) 4 = .cycle ["b", "c", "b"] := by decide
+example : Dep.checkCycle ([("a", ["b", "c"]), ("b", ["c"]), ("c", [])] : Dep.G String) 4 = .ok := by decide
 
 /-! ## the fuel is a proof device only: above the bound the answer does not depend on it -/
 
@@ -273,7 +332,7 @@ theorem include_fuel_independent (fs : Inc.FS) (files : List String) (f1 f2 : Na
   rw [e1, e2]
 
 /-- `checkCycle_fuel_independent` -/
-theorem checkCycle_fuel_independent (g : Dep.G) (hg : Dep.Closed g) (f1 f2 : Nat) (h1 : g.length < f1) (h2 : g.length < f2) :
+theorem checkCycle_fuel_independent {α : Type} [DecidableEq α] (g : Dep.G α) (hg : Dep.Closed g) (f1 f2 : Nat) (h1 : g.length < f1) (h2 : g.length < f2) :
     Dep.checkCycle g f1 = Dep.checkCycle g f2 := by
   have key : ∀ f, g.length < f → Dep.checkCycle g f = Dep.checkCycle g (g.length + 1) := by
     intro f hf
